@@ -489,6 +489,7 @@ int main(int argc, char **argv)
         struct ccase c; gen_case(&c, i);
         char cls[96]; snprintf(cls, sizeof cls, "C10:%s:%s", vtp_name[c.tp], vst_name[c.st]);
         vfork_case(i, one_case, NULL, 240, cls);
+        if (vstop_early()) break;
     }
     vsummary(true);
     return 0;
